@@ -687,7 +687,9 @@ def core_kind(t) -> str:
 
 def _leniency(a, b) -> bool:
     """documented leniencies excluded by the property: a fixed-length (or prefixed) tuple accepting a
-    variadic tuple of compatible element type"""
+    variadic tuple of compatible element type; the bare `Tuple` alias (= tuple[Any, ...]) accepted by tuple-like generics"""
+    if core_kind(b) == "baretuple" and core_kind(a) in ("tuple", "pvtuple", "vtuple", "seq", "iter"):
+        return True  # a bare generic on the right-hand side means G[Any] (documented leniency)
     return core_kind(a) in ("tuple", "pvtuple") and core_kind(b) == "vtuple"
 
 
